@@ -88,6 +88,10 @@ def c12_blocks(rng, tier):
     for _ in range(n):
         exf = rng.choice(["only", "only", "raw"])
         first = rng.sample(good, rng.randint(1, 3))
+        if rng.random() < 0.3:
+            # the same number listed twice (or more) in the initial set
+            for _ in range(rng.randint(1, 2)):
+                first.insert(rng.randint(0, len(first)), rng.choice(first))
         b = ["new %s %s" % (exf, " ".join(str(x) for x in first))]
         watched = list(first)
         for _ in range(rng.randint(2, 8)):
@@ -112,6 +116,8 @@ def c12_blocks(rng, tier):
         blocks.append(["new only 10 12 %d" % x, "check 10", "usable"])
         blocks.append(["new raw 10 %d 12" % x, "check 12", "usable"])
         blocks.append(["new raw 10", "add %d" % x, "add %d" % x, "add 12", "check 12", "drop", "usable"])
+        blocks.append(["new only 12 12 %d" % x, "check 12", "usable"])
+        blocks.append(["new raw 10 12 10 %d" % x, "usable"])
     return blocks
 
 
@@ -175,6 +181,8 @@ def monitor_c12(block, impl):
                 watched, alive = set(nums), True
             else:
                 watched, alive = set(), False
+                if "fds=" in res and not res.endswith("fds=+0"):
+                    probs.append("the failed constructor `%s` left descriptors behind (`%s`): a registration it made keeps its self-pipe alive" % (op, res))
         elif w[0] in ("add", "hadd") and alive:
             n = int(w[1])
             valid = 1 <= n <= 64 and n not in (32, 33) and n not in FORBIDDEN
